@@ -55,6 +55,7 @@ type opDesc struct {
 	bounded bool // Join with a size bound far above the merged size (must behave like the unbounded merge)
 	trunc   int  // > 0: Join with this (small) size bound, which may really truncate the log
 	iterUp  int  // Iterator: 0 default upper bound (the heads), 1 LTE hash, 2 LT hash
+	pick    int  // Iterator with a bound: which of the entries the log holds at that moment (0: the first one)
 	failAdd bool // the block write of this operation fails (disk error)
 }
 
@@ -72,6 +73,7 @@ type opRec struct {
 	task     int
 	ent      iface.IPFSLogEntry // append: the entry returned (registered by the harness after the run)
 	size     int                // join: the size bound used (-1: none)
+	bound    string             // iterator: the upper bound used
 }
 
 type st struct {
@@ -280,11 +282,26 @@ func (w *e1World) exec(t *task, tc *taskCtx, d opDesc) {
 	case kIterator:
 		ch := make(chan iface.IPFSLogEntry, 4096)
 		io := &ipfslog.IteratorOptions{}
+		bound := d.hash
+		if d.iterUp != 0 && d.pick%3 != 0 {
+			// a bound the application just saw in the log (the first entry of the index is the oldest one a
+			// size-bounded merge kept: its predecessors may be gone)
+			if ks := l.GetEntries().Keys(); len(ks) > 0 {
+				k := ks[0]
+				if d.pick%3 == 2 {
+					k = ks[d.pick%len(ks)]
+				}
+				if c, err := cid.Decode(k); err == nil {
+					bound = c
+				}
+			}
+		}
+		rec.bound = bound.String()
 		switch d.iterUp {
 		case 1:
-			io.LTE = []cid.Cid{d.hash}
+			io.LTE = []cid.Cid{bound}
 		case 2:
-			io.LT = []cid.Cid{d.hash}
+			io.LT = []cid.Cid{bound}
 		}
 		rec.err = l.Iterator(io, ch)
 		if rec.err == nil {
@@ -402,6 +419,8 @@ func genE1(r *Run, prop string) (*e1World, *e1Config) {
 					d.kind = kIterator
 				case x >= 18 && x < 22 && prop == "C16":
 					d.kind = kJoin
+				case x >= 28 && prop == "C16":
+					d.kind = kIterator
 				default:
 					// one of the read accessors, manifest publication or identity change (all 13 of them)
 					d.kind = kValues + r.Choose("read-kind", kJoinBad-kValues)
@@ -410,9 +429,11 @@ func genE1(r *Run, prop string) (*e1World, *e1Config) {
 					d.src = 1 + r.Choose("join-src", cfg.nlogs-1)
 				}
 			} else {
-				x := r.Choose("kind14", 22)
+				x := r.Choose("kind14", 24)
 				d.target = r.Choose("target", cfg.nlogs)
 				switch {
+				case x >= 22:
+					d.kind = kIterator // (with and without upper bounds; a refused bound must leave the log usable)
 				case prop == "C17" && x >= 15 && x < 20:
 					d.kind = kToMultihash
 				case x >= 20:
@@ -445,6 +466,7 @@ func genE1(r *Run, prop string) (*e1World, *e1Config) {
 			}
 			if d.kind == kIterator {
 				d.iterUp = r.Choose("iter-upper", 3)
+				d.pick = r.Choose("iter-pick", 1<<16)
 			}
 			d.failAdd = (d.kind == kAppend || d.kind == kToMultihash) && r.Choose("fail-add", 6) == 0
 			d.pc = 1 << uint(r.Choose("pc", 4))
@@ -956,7 +978,7 @@ func seqs0(x interface{}) interface{} { return x }
 // (inside the log) in one of the states the log had during the call, newest first, no duplicates.
 func (w *e1World) checkBoundedIterator(prop string, i int, o *opRec, cands []map[string]bool, describe func() string) {
 	r := w.r
-	b := o.d.hash.String()
+	b := o.bound
 	what := fmt.Sprintf("Iterator(%s %s) on %s", [...]string{"", "LTE", "LT"}[o.d.iterUp], w.name(b), w.names[i])
 	r.Probe("concurrent-iterator-with-upper-bound")
 	if o.err != nil {
